@@ -45,10 +45,11 @@ func guard(f func() error) (o outcome) {
 
 // panicSite parses a Go stack dump that contains the panicking frames and names who is responsible:
 // frames are walked from the panic point towards the callers, skipping runtime and big-number helpers;
-//   * the first fx-core frame met before any dependency entry point  => owner "fx", site = that function
+//   - the first fx-core frame met before any dependency entry point  => owner "fx", site = that function
 //     (fx code is the one that handed unvalidated data to whatever dereferenced it);
-//   * a dependency entry point met first (an SDK/ethermint AnteHandle, ValidateBasic, the tx decoder, baseapp)
+//   - a dependency entry point met first (an SDK/ethermint AnteHandle, ValidateBasic, the tx decoder, baseapp)
 //     => owner "dep", site = the top-most non-helper frame.
+//
 // Returned site is "fx:<func>" or "dep:<func>".
 func panicSite(stack string) (site, top string) {
 	lines := strings.Split(stack, "\n")
